@@ -188,10 +188,20 @@ def check_C11(tier):
     cases += rel.generated_cases(rng, 12 if tier == "quick" else 150, atom_range=(6, 30), nq=6)
     cases += rel.small_cases(rng, 60 if tier == "quick" else 800, shapes=("strong", "weak-mixed", "weak-nofin"), nq=8)
     rel.run_inclusions(chk, cases, modes=[False, True], budget=60, systems=("w", "l", "c"), backends=backends, ev_kind="equal")
+    # every usable engine (also in the quick tier) on the inputs where the layer recursions do the most work: bases with several
+    # tied correction sets per layer (defaults-and-exceptions, TLC-found distinguishing inputs) and specificity chains
+    all_rc2 = ["rc2"] + [f"rc2-{e}" for e in ok]
+    ties = [c for c in (infer.gen_case_defaults(rng, 6) for _ in range(16 if tier == "quick" else 200)) if c]
+    for v in ("wAnyTie", "lexAllPairs", "lexAllMcsF", "wMinCard"):
+        ties += infer.distinguishing_cases(rng, v)[: (8 if tier == "quick" else 60)]
+    ties += [c for c in (infer.gen_case_chain(rng) for _ in range(8 if tier == "quick" else 100)) if c]
+    tie_cases = [{"kind": "trees", "sig": c["sig"], "base": [(x["B"], x["A"]) for x in c["base"]], "qs": [(x["B"], x["A"]) for x in c["qs"][:6]], "via": "api"} for c in ties]
+    rel.run_inclusions(chk, tie_cases, modes=[False], budget=60, systems=("w", "l", "c"), backends={"w": ["z3"] + all_rc2, "l": ["z3"] + all_rc2, "c": all_rc2}, ev_kind="equal")
+    chk.cov["tie_cases_under_every_engine"] = len(tie_cases)
     chk.cov["backends_compared"] = backends
     chk.cov["rule"] = (
         "System W and lex under z3, rc2 and rc2-<engine> (quick: 4 seeded engines of the usable ones, thorough: all), c-inference under every rc2 value, both modes, on corpora, "
-        "generated 6-30 atom bases and sampled 3-5 atom bases; TLC (Trace_Relations 'equal' events) requires pointwise equal answers. Non-trivial = distinct (case, mode, system, query) rows "
+        "generated 6-30 atom bases and sampled 3-5 atom bases; in addition EVERY usable engine on bases with tied correction sets per layer (defaults-and-exceptions, TLC-found distinguishing inputs, specificity chains); TLC (Trace_Relations 'equal' events) requires pointwise equal answers. Non-trivial = distinct (case, mode, system, query) rows "
         "for which at least two back-ends returned an unflagged answer (i.e. a comparison actually took place)."
     )
     return chk.finish()
